@@ -304,7 +304,7 @@ class Offset(Harness):
 
     def variants(self, tier):
         out = []
-        for sh in ("s", "j2", "o"):
+        for sh in ("s", "j2", "o", "b"):
             for strand in (1, -1):
                 out.append({"shape": sh, "strand": strand, "wrap": True})
         out.append({"shape": "s", "strand": 1, "wrap": False})
